@@ -326,16 +326,41 @@ fn main() {
                 }
             }
         }
-        let ex = Explorer { report: &report, templates: templates.clone(), ts_classes: ts_classes.clone(), depth, triple_depth };
+        let split = depth >= 3;
+        let ex1 = Explorer { report: &report, templates: templates.clone(), ts_classes: ts_classes.clone(), depth: if split { 1 } else { depth }, triple_depth };
+        let prefixes = std::sync::Mutex::new(Vec::<(u8, char, Action, Action)>::new());
         par_shards(&report, shards.len(), |i, t| {
             let (v, kind, a) = shards[i];
             let h = History::base_kind(v, kind);
             let mut distinct = BTreeSet::new();
             if let Some(next) = h.apply(a) {
-                ex.visit(&next, t, &mut distinct);
+                ex1.visit(&next, t, &mut distinct);
+                if split {
+                    let mut mine = vec![];
+                    for b in next.actions(&templates, &ts_classes) {
+                        if next.apply(b).is_some() {
+                            mine.push((v, kind, a, b));
+                        }
+                    }
+                    prefixes.lock().unwrap().extend(mine);
+                }
             }
             distinct_total.lock().unwrap().extend(distinct);
         });
+        if split {
+            let mut prefixes = prefixes.into_inner().unwrap();
+            prefixes.sort_by_key(|(v, k, a, b)| (*v, *k, a.template, a.prev, a.ts_class, b.template, b.prev, b.ts_class));
+            let ex = Explorer { report: &report, templates: templates.clone(), ts_classes: ts_classes.clone(), depth, triple_depth };
+            par_shards(&report, prefixes.len(), |i, t| {
+                let (v, kind, a, b) = prefixes[i];
+                let h = History::base_kind(v, kind);
+                let mut distinct = BTreeSet::new();
+                if let Some(h2) = h.apply(a).and_then(|h1| h1.apply(b)) {
+                    ex.visit(&h2, t, &mut distinct);
+                }
+                distinct_total.lock().unwrap().extend(distinct);
+            });
+        }
     }
     report.set("distinct_histories_up_to_event_ids", json!(distinct_total.lock().unwrap().len()));
     report.set("passes", json!(passes));
